@@ -617,6 +617,72 @@ pub fn parse_all<T: Tok>(t: &[&str]) -> Option<T> {
     }
 }
 
+// ------------------------------------------------------------------ the same encoder / decoder over other writers and readers
+// A writer that takes one byte per call, a slice of exactly the right size and a slice one byte too small; a reader that
+// hands out one byte per call.  Encoders must produce the same bytes and report the same length on every writer that has
+// room, and fail on the one that has not; decoders must return the same value and consume the same number of bytes.
+pub struct Chunk(pub Vec<u8>);
+impl std::io::Write for Chunk {
+    fn write(&mut self, b: &[u8]) -> std::io::Result<usize> {
+        if b.is_empty() {
+            return Ok(0);
+        }
+        self.0.push(b[0]);
+        Ok(1)
+    }
+    fn flush(&mut self) -> std::io::Result<()> {
+        Ok(())
+    }
+}
+pub struct Drip<'a> {
+    pub b: &'a [u8],
+    pub pos: usize,
+}
+impl<'a> std::io::Read for Drip<'a> {
+    fn read(&mut self, out: &mut [u8]) -> std::io::Result<usize> {
+        if out.is_empty() || self.pos >= self.b.len() {
+            return Ok(0);
+        }
+        out[0] = self.b[self.pos];
+        self.pos += 1;
+        Ok(1)
+    }
+}
+pub fn writers_agree<T: Encodable>(x: &T, buf: &[u8], len: usize) -> bool {
+    let mut c = Chunk(Vec::new());
+    match x.consensus_encode(&mut c) {
+        Ok(l) if l == len && c.0 == buf => {}
+        _ => return false,
+    }
+    let mut exact = vec![0u8; buf.len()];
+    {
+        let mut w: &mut [u8] = &mut exact[..];
+        match x.consensus_encode(&mut w) {
+            Ok(l) if l == len => {}
+            _ => return false,
+        }
+    }
+    if exact != buf {
+        return false;
+    }
+    if !buf.is_empty() {
+        let mut small = vec![0u8; buf.len() - 1];
+        let mut w: &mut [u8] = &mut small[..];
+        if x.consensus_encode(&mut w).is_ok() {
+            return false;
+        }
+    }
+    true
+}
+pub fn readers_agree<T: Decodable + std::fmt::Debug>(b: &[u8], r: &Result<(T, usize), monero::consensus::encode::Error>) -> bool {
+    let mut d = Drip { b, pos: 0 };
+    match (T::consensus_decode(&mut d), r) {
+        (Ok(y), Ok((x, n))) => d.pos == *n && format!("{:?}", y) == format!("{:?}", x),
+        (Err(_), Err(_)) => true,
+        _ => false,
+    }
+}
+
 // ------------------------------------------------------------------ ops, generic in the type
 fn op_generic<T, W>(op: &str, args: &[&str], wrap: fn(T) -> W, unwrap: fn(&W) -> &T) -> Option<String>
 where
@@ -626,14 +692,22 @@ where
     match op {
         "dec" => {
             let b = unhex(args.first()?)?;
-            Some(match deserialize_partial::<T>(&b) {
+            let r = deserialize_partial::<T>(&b);
+            if !readers_agree(&b, &r) {
+                return Some("READER-MISMATCH".into());
+            }
+            Some(match r {
                 Ok((x, n)) => format!("OK {} {}", n, show(&wrap(x))),
-                Err(_) => "ERR".into(),
+                Err(e) => crate::err_shown(&e),
             })
         }
         "reser" => {
             let b = unhex(args.first()?)?;
-            Some(match deserialize_partial::<T>(&b) {
+            let r = deserialize_partial::<T>(&b);
+            if !readers_agree(&b, &r) {
+                return Some("READER-MISMATCH".into());
+            }
+            Some(match r {
                 Ok((x, n)) => {
                     let ser = monero::consensus::encode::serialize(&x);
                     if monero::consensus::encode::serialize_hex(&x) != hex::encode(&ser) {
@@ -641,14 +715,14 @@ where
                     }
                     format!("OK {} {}", n, show_hex(&ser))
                 }
-                Err(_) => "ERR".into(),
+                Err(e) => crate::err_shown(&e),
             })
         }
         "decs" => {
             let b = unhex(args.first()?)?;
             Some(match deserialize::<T>(&b) {
                 Ok(x) => format!("OK {}", show(&wrap(x))),
-                Err(_) => "ERR".into(),
+                Err(e) => crate::err_shown(&e),
             })
         }
         "enc" => {
@@ -658,6 +732,9 @@ where
             // serialize_hex is the hex text of the same bytes
             if monero::consensus::encode::serialize_hex(unwrap(&w)) != hex::encode(&buf) {
                 return Some("SERIALIZE-HEX-MISMATCH".into());
+            }
+            if !writers_agree(unwrap(&w), &buf, len) {
+                return Some("WRITER-MISMATCH".into());
             }
             Some(format!("OK {} {}", show_hex(&buf), len))
         }
@@ -674,7 +751,7 @@ where
             };
             Some(match res {
                 Ok(len) => format!("OK {}", show_hex(&buf[..len.min(n)])),
-                Err(_) => "ERR".into(),
+                Err(e) => crate::err_shown(&e),
             })
         }
         "rt" => {
@@ -682,13 +759,16 @@ where
             let orig = show(&w);
             let mut buf = Vec::new();
             let len = unwrap(&w).consensus_encode(&mut buf).unwrap();
+            if !writers_agree(unwrap(&w), &buf, len) {
+                return Some("WRITER-MISMATCH".into());
+            }
             let back = match deserialize_partial::<T>(&buf) {
                 Ok((x, n)) => format!("{} {}", (show(&wrap(x)) == orig) as u8, n),
-                Err(_) => "ERR".into(),
+                Err(e) => crate::err_shown(&e),
             };
             let strict = match deserialize::<T>(&buf) {
                 Ok(x) => format!("{}", (show(&wrap(x)) == orig) as u8),
-                Err(_) => "ERR".into(),
+                Err(e) => crate::err_shown(&e),
             };
             let mut b2 = buf.clone();
             b2.push(0);
@@ -757,7 +837,7 @@ fn rct_direct(op: &str, args: &[&str]) -> Option<String> {
                     show(&x)
                 ),
                 Ok(None) => "OK-NONE".into(),
-                Err(_) => "ERR".into(),
+                Err(e) => crate::err_shown(&e),
             })
         }
         ("dec_rctprunable", [t, i, o, m, h]) => {
@@ -771,7 +851,7 @@ fn rct_direct(op: &str, args: &[&str]) -> Option<String> {
                     format!("OK {} {} {}", cur.position(), show_hex(&buf), show(&x))
                 }
                 Ok(None) => "OK 0 - none".into(),
-                Err(_) => "ERR".into(),
+                Err(e) => crate::err_shown(&e),
             })
         }
         _ => None,
